@@ -92,16 +92,16 @@ def find_witness(unit_res, failed, workdir, repo):
         _WCACHE[(unit, failed.get('function'))] = None
         import run as runmod
         import kani_units
-        ku = runmod.load_units()[ent['unit']]
-        ku = dict(ku)
-        ku['harness'] = [h for h in ku['harness'] if h['name'] == ent['harness']]
-        kr = kani_units.run_kani_unit(ku, workdir, 'thorough', repo)
-        for f in kr['failed']:
-            if f.get('witness'):
-                w = f['witness']
-                w['found_by'] = 'paired Kani harness %s (unit %s), failing check %s' % (ent['harness'], ent['unit'], f['name'])
-                _WCACHE[(unit, failed.get('function'))] = w
-                return w
+        for e1 in (ent if isinstance(ent, list) else [ent]):
+            ku = dict(runmod.load_units()[e1['unit']])
+            ku['harness'] = [h for h in ku['harness'] if h['name'] == e1['harness']]
+            kr = kani_units.run_kani_unit(ku, workdir, 'thorough', repo)
+            for f in kr['failed']:
+                if f.get('witness'):
+                    w = f['witness']
+                    w['found_by'] = 'paired Kani harness %s (unit %s), failing check %s' % (e1['harness'], e1['unit'], f['name'])
+                    _WCACHE[(unit, failed.get('function'))] = w
+                    return w
     return None
 
 
